@@ -724,11 +724,14 @@ where
                             member.incarnation() == incarnation
                         })
                     {
+                        // The summary also exists when the suspicion has been
+                        // refuted (or the member replaced) in the meantime
+                        let declared_down = summary.apply_successful;
                         self.handle_apply_summary(summary, as_down, true, &mut runtime)?;
                         // Member went down we might need to adjust our internal state
                         self.adjust_connection_state(&mut runtime);
 
-                        if self.config.notify_down_members {
+                        if declared_down && self.config.notify_down_members {
                             // As a courtesy, we send a lightweight message to the member
                             // we're declaring down so that if it manages to receive it,
                             // it can react accordingly
